@@ -43,6 +43,11 @@ where
             inner: RpcClient::new(channel),
         }
     }
+
+    /// Sets the amount of time each request made with this client can take.
+    pub fn set_timeout(&mut self, timeout: std::time::Duration) {
+        self.inner.set_timeout(timeout);
+    }
 }
 
 impl<S> ConsistencyClient<S>
@@ -161,6 +166,11 @@ where
             clock,
             inner: RpcClient::new(channel),
         }
+    }
+
+    /// Sets the amount of time each request made with this client can take.
+    pub fn set_timeout(&mut self, timeout: std::time::Duration) {
+        self.inner.set_timeout(timeout);
     }
 }
 
